@@ -275,6 +275,44 @@ def suite_usm(out, tier, seed):
             if not ok:
                 out.fail({"kind": "forgery", "hash": hashname, "mode": [str(m) for m in mode]}, obs,
                          "an exception or exactly " + describe(authentic))
+        # ---- the same during a WALK: a forged or damaged answer to a later request must end the walk with an exception or leave
+        #      the result complete - an error status taken from an unauthenticated message (noSuchName) would end it silently
+        wdb = [((1, 3, 6, 1, 2, 1, 1, i, 0), ("int", ber.INT, i)) for i in range(1, 6)]
+        wag = agent.V3Agent(wdb, auth=(hashname, b"authpass1"))
+        full = None
+        wmodes = [None, ("status-unauth", 2), ("status-unauth", 5), ("status-keepdigest", 2), ("flags", 0)] + \
+                 [("bit", rnd.randrange(0, 8 * 110)) for _ in range(nflip)]
+        for mode in wmodes:
+            cnt = {"n": 0}
+
+            async def wmitm(endpoint, data, timeout=1, loop=None, retries=10, wag=wag, mode=mode, cnt=cnt):
+                reply = await wag(endpoint, data)
+                if ber.parse_v3_message(data)["user"] == b"" or mode is None:
+                    return reply
+                cnt["n"] += 1
+                if cnt["n"] != 3:
+                    return reply
+                return forge(reply, mode, wag)
+
+            async def walk_all(c):
+                return [(str(vb.oid), vb.value.value) async for vb in c.walk(OID("1.3.6.1.2.1.1"))]
+            out.case((hashname, "walk") + tuple(map(str, mode or ("clean",))))
+            c = Client("127.0.0.1", creds, sender=wmitm)
+            signal.alarm(3)
+            try:
+                got = run(walk_all(c))
+                if mode is None:
+                    full = got
+                ok, obs = got == full, "walk ended normally with %d of %d instances" % (len(got), len(full or got))
+            except TimeoutError:
+                ok, obs = True, "hang (D15, reported under C20)"
+            except Exception as e:  # noqa
+                ok, obs = True, "exception %s" % type(e).__name__
+            finally:
+                signal.alarm(0)
+            if not ok:
+                out.fail({"kind": "forgery-in-walk", "hash": hashname, "mode": [str(m) for m in mode]}, obs,
+                         "an exception or the complete walk (%d instances)" % len(full))
 
 
 def forge(reply, mode, ag):
@@ -303,7 +341,12 @@ def forge(reply, mode, ag):
         vbs = [(o, ("bytes", ber.OCTETS, b"forged-value")) for o, _ in vbs]
     elif kind == "engine":
         eng = arg
-    node = ber.build_pdu(tag, pdu["request_id"], pdu["f1"], pdu["f2"], vbs)
+    f1 = pdu["f1"]
+    if kind == "status-unauth":
+        flags, authp, f1 = 0, b"", arg           # unauthenticated, carrying an agent error status
+    elif kind == "status-keepdigest":
+        f1 = arg                                  # error status changed, the (now wrong) digest kept
+    node = ber.build_pdu(tag, pdu["request_id"], f1, pdu["f2"], vbs)
     return ber.build_v3_message(m["msg_id"], m["max_size"], flags, eng, m["boots"], m["time"], user, authp, m["priv_params"],
                                 ber.build_scoped(m["scoped"]["context_engine_id"], m["scoped"]["context_name"], node))
 
@@ -874,11 +917,11 @@ def suite_udp(out, tier, seed):
 
     def nfd():
         return len(os.listdir("/proc/self/fd"))
-    outcomes = ["reply", "drop", "late", "double"]
+    outcomes = ["reply", "drop", "late", "double", "empty"]
     plans = [p for r in (1, 2, 3) for p in itertools.product(outcomes, repeat=r)]
     if tier == "quick":
         rnd.shuffle(plans)
-        plans = plans[:10]
+        plans = plans[:10] + [("empty",), ("drop", "empty")]
     T = 0.12
 
     async def one(plan, retries, closed_port=False):
@@ -895,6 +938,9 @@ def suite_udp(out, tier, seed):
                 what = plan[k] if k < len(plan) else "drop"
                 if what == "reply":
                     self.tr.sendto(b"reply-%d" % k, addr)
+                elif what == "empty":
+                    # a zero-length datagram is a reply too (asyncio's sendto() drops empty payloads: use the socket)
+                    self.tr._sock.sendto(b"", addr)
                 elif what == "double":
                     self.tr.sendto(b"reply-%d" % k, addr)
                     self.tr.sendto(b"second-%d" % k, addr)
@@ -927,13 +973,13 @@ def suite_udp(out, tier, seed):
         out.case(("udp", plan, retries))
         res, exc, elapsed, got, leaked = run(one(plan, retries))
         scen = {"kind": "udp", "plan": list(plan), "retries": retries, "timeout": T}
-        first = next((i for i, w in enumerate(plan) if w in ("reply", "double")), None)
+        first = next((i for i, w in enumerate(plan) if w in ("reply", "double", "empty")), None)
         if leaked > 0:
             out.fail(scen, "%d descriptor(s) still open" % leaked, "no socket left open")
         if any(d != b"request-bytes" for d in got) or len(got) > retries:
             out.fail(scen, "datagrams sent: %r" % got, "at most `retries` identical requests")
         if first is not None:
-            if exc is not None or res != b"reply-%d" % first:
+            if exc is not None or res != (b"" if plan[first] == "empty" else b"reply-%d" % first):
                 out.fail(scen, repr(res or exc), "the first reply's bytes (attempt %d)" % first)
         else:
             if not isinstance(exc, Timeout) or len(got) != retries or not (retries * T * 0.9 <= elapsed <= retries * T * 1.8 + 0.3):
@@ -942,6 +988,10 @@ def suite_udp(out, tier, seed):
     res, exc, elapsed, got, leaked = run(one((), 2, closed_port=True))
     if leaked > 0:
         out.fail({"kind": "udp", "plan": ["icmp"], "retries": 2}, "%d descriptor(s) still open after %r" % (leaked, exc), "no socket left open")
+    if isinstance(exc, Timeout) and elapsed < 2 * T * 0.9:
+        # a rejected datagram is not an unanswered attempt: Timeout means `retries` attempts of `timeout` seconds each
+        out.fail({"kind": "udp", "plan": ["icmp"], "retries": 2}, "Timeout after %.2fs" % elapsed,
+                 "the OS error of the attempt, or Timeout only after 2 x %.2fs" % T)
 
 
 # ============================================================================ concurrent (C14)
